@@ -160,6 +160,18 @@ READ_STRINGS: List[Tuple[str, bytes]] = [
     # reachable converse: with CMAP_PATH = <root>/mirror/<first components of the decoy path> (env mode "mirror") this name stays
     # inside CMAP_PATH (where nothing has that name) but from the bundled directory it leads to a decoy outside both
     ("mirror_inside_env_outside_lib", b"@REL_LIB_M@"),
+    # harmless pickles planted under these names in the working directory (and its sub/): nothing may make the working
+    # directory a resource directory, in particular not an unset CMAP_PATH
+    ("cwd_file", b"Planted"),
+    ("cwd_file_dot", b"./Planted"),
+    ("cwd_sub_file", b"sub/Planted"),
+    # the CMAP_PATH directory holds a symbolic link "vendor" to a directory outside it and a linked file; the files that
+    # these names resolve to (real path) are planted outside every resource directory
+    ("env_dirlink", b"vendor/EvilA"),
+    ("env_dirlink_nested", b"vendor/deep/EvilB"),
+    ("env_dirlink_up", b"vendor/../EvilC"),
+    ("env_dirlink_dot", b"./vendor/./EvilA"),
+    ("env_filelink", b"LinkedFile"),
     ("dot", b"."),
     ("dotdot", b".."),
     ("empty", b""),
@@ -184,6 +196,8 @@ REACHABLE_READ_TAGS = {
     "sibling_named_like_lib_dir_real_name", "sibling_named_like_lib_dir_dot", "sibling_named_like_env_dir",
     "sibling_named_like_env_dir_decoy", "mirror_inside_env_outside_lib",
 }
+CWD_TAGS = ["cwd_file", "cwd_file_dot", "cwd_sub_file"]
+LINK_TAGS = ["env_dirlink", "env_dirlink_nested", "env_dirlink_up", "env_dirlink_dot", "env_filelink"]
 READ_CONTROLS: List[Tuple[str, bytes]] = [
     ("ctl_90ms", b"90ms-RKSJ-H"), ("ctl_unijis", b"UniJIS-UCS2-H"), ("ctl_identity", b"Identity-H"),
     ("ctl_env_custom", b"VF-Custom-H"), ("ctl_H", b"H"), ("ctl_gbk", b"GBK-EUC-H"), ("ctl_unknown", b"NoSuchCMap-H"),
@@ -210,7 +224,12 @@ WRITE_STRINGS: List[Tuple[str, bytes]] = (
         ("existing_with_ext", b"Im0.bmp"),
         ("existing_first_alt", b"Im0.0"),
         ("existing_dangling_link", b"Lnk1"),     # <outdir>/Lnk1<ext> is a symbolic link to a missing file outside
-        ("existing_link_to_victim", b"Lnk2"),    # <outdir>/Lnk2<ext> is a symbolic link to an existing file outside
+        ("existing_link_to_victim", b"Lnk2"),
+        # <outdir>/Pre_1<ext> exists: these names equal it only once separators, colon or NUL have become "_"
+        ("sanitised_name_exists_colon", b"Pre:1"),
+        ("sanitised_name_exists_slash", b"Pre/1"),
+        ("sanitised_name_exists_backslash", b"Pre\\1"),
+        ("sanitised_name_exists_nul", b"Pre\x001"),    # <outdir>/Lnk2<ext> is a symbolic link to an existing file outside
         ("dot", b"."),
         ("dotdot", b".."),
         ("empty", b""),
@@ -235,11 +254,20 @@ WRITE_STRINGS: List[Tuple[str, bytes]] = (
 )
 WRITE_CONTROLS: List[Tuple[str, bytes]] = [("ctl_Im1", b"Im1"), ("ctl_Image7", b"Image7"), ("ctl_dotted", b"fig.a"), ("ctl_X", b"X")]
 
+# two image names in one document that differ as written but may become the same file name once unsafe characters are
+# replaced ("_" for / \\ : NUL) or only the last path component is kept; each pair is run in both orders
+COLLIDING_PAIRS: List[Tuple[bytes, bytes]] = [
+    (b"Im_1", b"Im:1"), (b"a_b", b"a/b"), (b"a_b", b"a\\b"), (b"x_y", b"x\x00y"), (b"p:q", b"p/q"), (b"p\\q", b"p\x00q"),
+    (b"Img", b"sub/Img"), (b"Img", b"../Img"), (b".._e", b"../e"), (b"Pre_1", b"Pre:1"),
+]
+PAIR_KINDS = ["gray8", "rgb8", "bw1", "dct", "raw4", "cmyk8", "flate_gray8", "jbig2"]   # kinds whose export completes
+
 READ_SLOTS = ["encoding_name", "cmapname_stream", "cmapname_dict", "usecmap_cid", "usecmap_simple", "usecmap_string",
               "usecmap_raw", "usecmap_encstream", "registry", "registry_sub", "ordering", "ordering_sub"]
 NAME_SLOTS = ["basefont", "image_dict_name", "inline_cs", "form_name"]
 WRITE_SLOTS = ["xobject_image", "form_inner_image"]
 ALL_SLOTS = READ_SLOTS + NAME_SLOTS + WRITE_SLOTS
+PAIR_SLOT = "image_pair"    # enumerated only: case["h"] and case["h2"] name two page-level images of the same kind
 
 IMAGE_KINDS = ["gray8", "rgb8", "bw1", "dct", "raw4", "cmyk8", "flate_gray8", "flate_cmyk", "jbig2"]
 BENIGN_ENC = [b"90ms-RKSJ-H", b"UniJIS-UCS2-H", b"VF-Custom-H", b"Identity-H", b"H", b"KSC-EUC-H"]
@@ -259,7 +287,16 @@ def minimums(tier: str) -> Dict[str, int]:
         "naive_read_hits": 200 if q else 3500,
         "naive_write_escapes": 200 if q else 2500,
         "hostile_image_name_runs_with_file_in_outdir": 400 if q else 8000,
-        "seen:slots": len(ALL_SLOTS) + 1,
+        # the three families below are enumerated (seed-independent): CMAP_PATH unset with planted files in the working
+        # directory, names routed through symbolic links inside CMAP_PATH, image names that collide after sanitising
+        "cwd_family_runs": 60,
+        "cwd_family_planted_file_reachable": 50,
+        "link_family_runs": 80,
+        "link_family_target_reachable": 80,
+        "pair_family_runs": 100,
+        "pair_family_two_files_created": 80,
+        "sanitised_name_exists_runs": 30,
+        "seen:slots": len(ALL_SLOTS) + 2,
         "seen:otypes": 3,
         "seen:outmodes": len(OUTMODES),
         "seen:envmodes": 3,
@@ -335,6 +372,26 @@ def enum_cases() -> List[Dict[str, Any]]:
             add("xobject_image", tag, h, outmode="abs")
     for tag, h in WRITE_STRINGS:
         add("encoding_name", tag, h)
+    # CMAP_PATH unset, planted files in the working directory (absolute and relative output directory: two different cwds)
+    for slot in ["encoding_name", "cmapname_stream", "cmapname_dict", "usecmap_cid", "usecmap_simple", "usecmap_string",
+                 "registry", "ordering"]:
+        for tag in CWD_TAGS:
+            for k, ot in enumerate(OTYPES):
+                add(slot, tag, dict(READ_STRINGS)[tag], otype=ot, outmode=["abs", "rel", "none"][k], env="unset")
+            add(slot, tag, dict(READ_STRINGS)[tag], outmode="rel", env="set")
+    # names routed through the symbolic links inside the CMAP_PATH directory
+    for slot in ["encoding_name", "cmapname_stream", "cmapname_dict", "usecmap_cid", "usecmap_simple", "registry_sub",
+                 "ordering_sub"]:
+        for tag in LINK_TAGS:
+            for ot in OTYPES:
+                add(slot, tag, dict(READ_STRINGS)[tag], otype=ot, env="set")
+    # pairs of image names that collide only after sanitising, both orders, every output type
+    for a, b in COLLIDING_PAIRS:
+        for first, second in ((a, b), (b, a)):
+            for k, ot in enumerate(OTYPES):
+                for om in ("abs", "link", "rel"):
+                    add(PAIR_SLOT, "pair", first, otype=ot, outmode=om, env="set")
+                    cases[-1]["h2"] = second
     # every image kind and output mode with controls; duplicates of one name within a document
     for k in range(len(IMAGE_KINDS) * len(OUTMODES) * 3):
         add("control", "ctl_images", b"", otype=OTYPES[k % 3], outmode=OUTMODES[(k // 3) % len(OUTMODES)], v=k)
@@ -380,6 +437,31 @@ class Scratch:
                 self._w(p, _DECOY_GZ)
                 self.decoy_files.append(p)
         self.decoy_base = os.path.join(self.decoydir, "decoy")
+        # planted in both working directories (self.cwd; self.work when output_dir is relative)
+        self.cwd_decoys: List[str] = []
+        for d in (self.cwd, self.work):
+            os.makedirs(os.path.join(d, "sub"), exist_ok=True)
+            for nm in ("Planted", "sub/Planted", "to-unicode-Planted-x", "to-unicode-Adobe-Planted",
+                       "to-unicode-sub/Planted-x", "to-unicode-Adobe-sub/Planted"):
+                p = os.path.join(d, nm + ".pickle.gz")
+                os.makedirs(os.path.dirname(p), exist_ok=True)
+                self._w(p, _DECOY_GZ)
+                self.cwd_decoys.append(p)
+        self.decoy_files.extend(self.cwd_decoys)
+        # symbolic links inside the configured resource directory that lead out of it
+        self.vendor = os.path.join(r, "res", "vendor_outside")
+        os.makedirs(os.path.join(self.vendor, "deep"))
+        os.symlink("../vendor_outside", os.path.join(self.envdir, "vendor"))
+        os.symlink("../decoys/decoy.pickle.gz", os.path.join(self.envdir, "LinkedFile.pickle.gz"))
+        os.symlink("../decoys/decoy-x.pickle.gz", os.path.join(self.envdir, "LinkedFile-x.pickle.gz"))
+        self.link_decoys: List[str] = []
+        for sfx in DECOY_SUFFIXES:
+            for p in (os.path.join(self.vendor, "EvilA" + sfx + ".pickle.gz"),
+                      os.path.join(self.vendor, "deep", "EvilB" + sfx + ".pickle.gz"),
+                      os.path.join(r, "res", "EvilC" + sfx + ".pickle.gz")):
+                self._w(p, _DECOY_GZ)
+                self.link_decoys.append(p)
+        self.decoy_files.extend(self.link_decoys)
         # "mirror" resource directory: <root>/mirror/<t1>/../<tu> where ../ x u + t1/t2/... is the way from the bundled
         # directory to a second decoy; that relative name, joined onto the mirror directory, stays inside it
         self.mdecoy_base = os.path.join(self.decoydir, "m", "1", "2", "3", "decoy")
@@ -411,6 +493,8 @@ class Scratch:
             os.symlink("../../dangling" + ext, os.path.join(self.physical_out, "Lnk1" + ext))
             os.symlink("../victim" + ext, os.path.join(self.physical_out, "Lnk2" + ext))
         self._w(os.path.join(self.physical_out, "Im0.bmp.bmp"), b"SENTINEL Im0.bmp.bmp")
+        for ext in IMAGE_EXTS:
+            self._w(os.path.join(self.physical_out, "Pre_1" + ext), b"SENTINEL Pre_1" + ext.encode())
         os.mkdir(os.path.join(self.physical_out, "sub"))
         self._w(os.path.join(self.physical_out, "sub", "img.bmp"), b"SENTINEL sub/img.bmp")
         up = self.work
@@ -630,10 +714,16 @@ def build_doc(case: Dict[str, Any], h: bytes) -> Tuple[bytes, Dict[str, Any]]:
         return b"q 20 0 0 20 %d 400 cm " % x + ser_name(name) + b" Do Q\n"
 
     dictname = h if slot == "image_dict_name" else None
-    if slot == "xobject_image":
+    if slot in ("xobject_image", PAIR_SLOT):
         nm1 = h
+    if slot == PAIR_SLOT:
+        kinds = [PAIR_KINDS[v % len(PAIR_KINDS)]] * 2
+        facts["kinds"] = list(kinds)
     xobjects[Name(nm1)] = doc.add(_image(kinds[0], doc, dictname))
     content.append(paint(nm1, 72))
+    if slot == PAIR_SLOT:
+        xobjects[Name(case["h2"])] = doc.add(_image(kinds[0], doc))
+        content.append(paint(case["h2"], 220))
     if slot == "xobject_image" and v % 2:
         content.append(paint(nm1, 300))     # the second export of one name goes through the "name is taken" branch
         facts["twice"] = True
@@ -702,6 +792,23 @@ def _clear_caches() -> None:
         c = getattr(CMapDB, attr, None)
         if isinstance(c, dict):
             c.clear()
+
+
+def _lookup_name(slot: str, h: bytes) -> Optional[str]:
+    """The resource name (without .pickle.gz) a read slot asks for, given its string."""
+    try:
+        s = h.decode("utf-8").replace("\0", "")
+    except UnicodeDecodeError:
+        return None
+    if slot == "registry":
+        return "to-unicode-%s-x" % s.strip()
+    if slot == "registry_sub":
+        return "to-unicode-vf/../%s-x" % s.strip()
+    if slot == "ordering":
+        return "to-unicode-Adobe-%s" % s.strip()
+    if slot == "ordering_sub":
+        return "to-unicode-vf-/../%s" % s.strip()
+    return s
 
 
 def naive_targets(case: Dict[str, Any], h: bytes, sc: Scratch) -> Tuple[int, int]:
@@ -794,7 +901,8 @@ def run_case(case: Dict[str, Any], monitor: bool = True, rec: Any = None) -> Lis
     try:
         h = sc.subst(case["h"])
         data, facts = build_doc(case, h)
-        if slot in WRITE_SLOTS + NAME_SLOTS[1:] and not _write_target_in_root(sc, h):
+        if (slot in WRITE_SLOTS + NAME_SLOTS[1:] + [PAIR_SLOT] and not _write_target_in_root(sc, h)) or (
+                slot == PAIR_SLOT and not _write_target_in_root(sc, case["h2"])):
             # generator guarantee broken: refuse to run rather than let a defective tree write outside the scratch root
             if rec is not None:
                 rec.inconclusive("unsafe_write_target_not_run")
@@ -897,6 +1005,24 @@ def run_case(case: Dict[str, Any], monitor: bool = True, rec: Any = None) -> Lis
             rec.count("decoy_opened", n_decoy)
             rec.count("decoy_unicode_map_used_in_output", int(decoy_used))
             rec.count("image_paint_operators", facts["painted"])
+            # the enumerated families of round 3: was the planted target really where the name points?
+            if case["tag"] in CWD_TAGS and case["env"] == "unset":
+                rec.count("cwd_family_runs")
+                nm = _lookup_name(slot, h)
+                rec.count("cwd_family_planted_file_reachable",
+                          int(nm is not None and os.path.realpath(os.path.join(sc.run_cwd, nm + ".pickle.gz")) in sc.cwd_decoys
+                              and os.path.isfile(os.path.join(sc.run_cwd, nm + ".pickle.gz"))))
+            if case["tag"] in LINK_TAGS and case["env"] == "set":
+                rec.count("link_family_runs")
+                nm = _lookup_name(slot, h)
+                p = os.path.join(sc.envdir, (nm or "\0") + ".pickle.gz")
+                rec.count("link_family_target_reachable", int(nm is not None and os.path.realpath(p) in sc.decoy_files
+                                                              and not inside(os.path.realpath(sc.envdir), os.path.realpath(p))))
+            if slot == PAIR_SLOT:
+                rec.count("pair_family_runs")
+                rec.count("pair_family_two_files_created", int(created_files >= 2))
+            if case["tag"].startswith("sanitised_name_exists") and slot in WRITE_SLOTS and case["outmode"] in ("abs", "rel", "odd", "link"):
+                rec.count("sanitised_name_exists_runs")
             if slot in WRITE_SLOTS and case["tag"][:4] != "ctl_" and sc.eff_out is not None:
                 rec.count("hostile_image_name_runs")
                 rec.count("hostile_image_name_runs_with_file_in_outdir", int(created_files > 0))
